@@ -618,7 +618,7 @@ void apply(T *d, const linepart &pt, const S *src, const T &scale)
 	S sx(scale.x), sy(scale.y), part;
 	
 	if ((part = pt.cut())) {
-		if (pt.raw < 2) {
+		if (pt.usr < 2) {
 			return;
 		}
 		++j;
@@ -630,7 +630,7 @@ void apply(T *d, const linepart &pt, const S *src, const T &scale)
 		d->y += sy * part;
 	}
 	if ((part = pt.trim())) {
-		if (pt.raw < 2) {
+		if (pt.usr < 2) {
 			return;
 		}
 		--len;
